@@ -4,6 +4,7 @@ import LalModel.Model.Aac
 import LalModel.Model.Ts
 import LalModel.Model.Psi
 import LalModel.Generated.C05Consts
+import LalModel.Generated.C06Consts
 /-
   Model of pkg/remux/rtmp2mpegts.go (`Rtmp2MpegtsRemuxer`: feedVideo, feedAudio, FlushAudio, onFrame),
   pkg/remux/rtmp2mpegts_filter_.go (`rtmp2MpegtsFilter`: the probe queue of 16 messages) and
@@ -112,11 +113,13 @@ structure Loop where
   spspps : Option Bytes
 deriving Repr, DecidableEq
 
-/-- `appendSpsPps` + the rest of the loop body after the parameter-set / AUD filtering; `none` = `return` -/
-def emitNal (hevc : Bool) (l : Loop) (nal : Bytes) (irap clearFlag : Bool) : Option Loop :=
+/-- `appendSpsPps` + the rest of the loop body after the AUD / SEI filtering; `none` = `return`. An in-band parameter set
+    (`isParamSet`) is written where the publisher put it and leaves `spsppsSent` alone. -/
+def emitNal (hevc : Bool) (l : Loop) (nal : Bytes) (irap clearFlag : Bool) (isParamSet : Bool := false) : Option Loop :=
   let l := if !l.audSent then { l with out := l.out ++ (if hevc then hevcAud else avcAud), audSent := true } else l
   let l? : Option Loop :=
-    if irap then
+    if isParamSet then some l
+    else if irap then
       if !l.spsppsSent then
         match l.spspps with
         | none => none
@@ -132,22 +135,25 @@ def nalStep (hevc : Bool) (l : Loop) (nal : Bytes) : GoM (Option Loop) := do
   if !hevc then
     let t := h.toNat % 32
     if t = 9 then return some l
-    if t = 7 then return some { l with sps := nal }
+    if t = 7 then return emitNal false { l with sps := nal } nal false false true
     if t = 8 then
       let l := { l with pps := nal }
-      return some (if l.sps.length ≠ 0 ∧ l.pps.length ≠ 0
-        then { l with spspps := some (naluStartCode4 ++ l.sps ++ naluStartCode4 ++ l.pps) } else l)
+      -- a complete group refreshes the cache and counts as "already sent" for the key frame that follows
+      let l := if l.sps.length ≠ 0 ∧ l.pps.length ≠ 0
+        then { l with spspps := some (naluStartCode4 ++ l.sps ++ naluStartCode4 ++ l.pps), spsppsSent := true } else l
+      return emitNal false l nal false false true
     return emitNal false l nal (t = 5) (t = 1)
   else
     let t := h.toNat % 128 / 2
     if t = 39 ∨ t = 40 then return some l
     if t = 35 then return some l
-    if t = 32 then return some { l with vps := nal }
-    if t = 33 then return some { l with sps := nal }
+    if t = 32 then return emitNal true { l with vps := nal } nal false false true
+    if t = 33 then return emitNal true { l with sps := nal } nal false false true
     if t = 34 then
       let l := { l with pps := nal }
-      return some (if l.vps.length ≠ 0 ∧ l.sps.length ≠ 0 ∧ l.pps.length ≠ 0
-        then { l with spspps := some (naluStartCode4 ++ l.vps ++ naluStartCode4 ++ l.sps ++ naluStartCode4 ++ l.pps) } else l)
+      let l := if l.vps.length ≠ 0 ∧ l.sps.length ≠ 0 ∧ l.pps.length ≠ 0
+        then { l with spspps := some (naluStartCode4 ++ l.vps ++ naluStartCode4 ++ l.sps ++ naluStartCode4 ++ l.pps), spsppsSent := true } else l
+      return emitNal true l nal false false true
     let irap := decide (16 ≤ t ∧ t ≤ 23)
     return emitNal true l nal irap (!irap)
 
@@ -225,7 +231,9 @@ def cacheAsc {σ} (s : St) (os : σ) (m : Msg) : GoM (St × σ) := do
 /-- `feedAudio`, AAC raw frame. `c` is `*s.ascCtx`, which neither `FlushAudio` nor an observer can change. -/
 def feedAac {σ} (o : Observer σ) (s : St) (os : σ) (m : Msg) (c : Aac.AscContext) : GoM (St × σ) := do
   let pts := m.ts * 90
-  let r := flushIf o (!s.audioCacheEmpty && decide (s.audioFirstPts + maxAudioCacheDelayByAudio < pts)) s os
+  -- flushed when the cache is old enough, when the timestamp went back, or when one PES packet could not hold more
+  let r := flushIf o (!s.audioCacheEmpty && (decide (s.audioFirstPts + maxAudioCacheDelayByAudio < pts) ||
+      decide (pts < s.audioFirstPts) || decide (s.audioCache.length + 7 + m.payload.length - 2 > Gen.maxAudioCacheSize))) s os
   let s1 := if r.1.audioCacheEmpty then { r.1 with audioFirstPts := pts } else r.1
   let adts := Aac.packAdtsHeader c (m.payload.length - 2)
   let raw ← from? "feedAudio: Payload[2:]" m.payload 2
@@ -238,8 +246,11 @@ def feedOpus {σ} (o : Observer σ) (s : St) (os : σ) (m : Msg) : GoM (St × σ
 
 /-- `feedAudio(msg)` (reached only for AAC and Opus) -/
 def feedAudio {σ} (o : Observer σ) (s : St) (os : σ) (m : Msg) : GoM (St × σ) := do
-  if m.payload.length ≤ 2 then return (s, os)
-  if (← audioCodecId m) = 10 then
+  -- the AAC header has two bytes, the other formats (Opus) one
+  if m.payload.length ≤ 1 then return (s, os)
+  let codec ← audioCodecId m
+  if m.payload.length = 2 ∧ codec = 10 then return (s, os)
+  if codec = 10 then
     if (← idx? "feedAudio: Payload[1]" m.payload 1) = 0 then return ← cacheAsc s os m
     match s.asc with
     | none => return (s, os)
